@@ -186,11 +186,13 @@ def zoo(rng, thorough):
     add('SplitPipeline', lambda: pykoop.SplitPipeline(
         lifting_functions_state=[('pl', pykoop.PolynomialLiftingFn(order=2)), ('dl', pykoop.DelayLiftingFn(1, 0))],
         lifting_functions_input=[('du', pykoop.DelayLiftingFn(0, 1))]), 'lifting',
-        {'pl__order': [1, 2], 'dl__n_delays_state': [0, 1], 'du__n_delays_input': [1, 2]})
+        {'pl__order': [1, 2], 'dl__n_delays_state': [0, 1], 'du__n_delays_input': [1, 2],
+         'du': [pykoop.DelayLiftingFn(0, 2)], 'pl': [pykoop.PolynomialLiftingFn(order=1)]})      # whole steps replaced by name
     add('KoopmanPipeline', lambda: pykoop.KoopmanPipeline(
         lifting_functions=[('pl', pykoop.PolynomialLiftingFn(order=2)), ('dl', pykoop.DelayLiftingFn(1, 1))],
         regressor=pykoop.Edmd(alpha=0.1)), 'pipeline',
-        {'pl__order': [1, 2], 'dl__n_delays_state': [1, 2], 'regressor__alpha': [0, 0.1, 1]})
+        {'pl__order': [1, 2], 'dl__n_delays_state': [1, 2], 'regressor__alpha': [0, 0.1, 1],
+         'pl': [pykoop.PolynomialLiftingFn(order=3), pykoop.PolynomialLiftingFn(order=1)]})      # a whole step replaced by name
     add('GridCenters', lambda: pykoop.GridCenters(2), 'centers', {'n_points_per_feature': [1, 2, 3], 'symmetric_range': [True, False]})
     add('UniformRandomCenters', lambda: pykoop.UniformRandomCenters(n_centers=4, random_state=2), 'centers',
         {'n_centers': [1, 4], 'random_state': [2, 3]})
@@ -396,6 +398,25 @@ def run_history(ctx, z, length, frames=False):
                 if cols0 is not None and [str(c) for c in X.columns] != cols0:
                     fails.append((f'{name} modified the column names of its input DataFrame', {'estimator': z['name'], 'part': 'read'}))
                     return hist, fails      # the caller's DataFrame is corrupted: stop using it
+            # results already handed out belong to the caller: later calls on the same estimator must not change them
+            kept = []
+            for name, th in reads(z, est, X, kw):
+                try:
+                    o = th()
+                except Exception:
+                    continue
+                if isinstance(o, np.ndarray) and o.dtype.kind in 'fiuc':
+                    kept.append((name, o, o.copy()))
+            for name, th in reads(z, est, X, kw)[::-1]:
+                try:
+                    th()
+                except Exception:
+                    pass
+            for name, o, c0 in kept:
+                if not np.array_equal(o, c0, equal_nan=True):
+                    fails.append((f'the array returned by {name} was modified by a later call on the same estimator (the result '
+                                  'aliases internal state)', {'estimator': z['name'], 'part': 'read'}))
+                    break
             if digest(fitted_attrs(est)) + digest(est.get_params(deep=True)) != before:
                 fails.append(('a read-only call changed the fitted state or the parameters', {'estimator': z['name'], 'part': 'read'}))
             if not np.array_equal(np.array(X), Xc):
@@ -404,8 +425,22 @@ def run_history(ctx, z, length, frames=False):
             k = rng.choice(sorted(z['params']))
             v = rng.choice(z['params'][k])
             others = {kk: digest(vv) for kk, vv in est.get_params(deep=True).items()
-                      if kk != k and is_leaf(vv)}
+                      if kk != k and not kk.startswith(k + '__') and is_leaf(vv)}
+            # a snapshot taken earlier belongs to the caller (it may be fed back later, or be the very list another estimator
+            # was built from): replacing a step must not rewrite the step lists it holds
+            snap = est.get_params(deep=False)
+            sig = lambda d: {kk: [(nm, id(ob)) for nm, ob in vv] for kk, vv in d.items()
+                             if isinstance(vv, list) and all(isinstance(t, tuple) and len(t) == 2 for t in vv)}
+            sig0 = sig(snap)
+            if not is_leaf(v):
+                v = sklearn.base.clone(v)
             est.set_params(**{k: v})
+            if sig(snap) != sig0:
+                fails.append((f'set_params({k}=<estimator>) rewrote the step list held by an earlier get_params(deep=False) snapshot '
+                              '(the list the estimator was constructed from): feeding the snapshot back no longer restores the '
+                              'configuration, and another estimator built from that list changes with it',
+                              {'estimator': z['name'], 'part': 'params'}))
+                return hist, fails
             hist.append(f'set_params({k}={v})')
             got = est.get_params(deep=True)
             if digest(got[k]) != digest(v):
